@@ -164,9 +164,13 @@ func (H) Generate(r *simrt.Rand, tier string) any {
 		return s
 	}
 	nc := 2 + r.Intn(3)
+	maxOps := 5
+	if tier == "thorough" && r.Intn(3) == 0 {
+		maxOps = 9
+	}
 	for i := 0; i < nc; i++ {
 		var c []Op
-		for j := 0; j < 1+r.Intn(5); j++ {
+		for j := 0; j < 1+r.Intn(maxOps); j++ {
 			c = append(c, genOp(r, s.Keys, &next))
 		}
 		s.Clients = append(s.Clients, c)
